@@ -232,8 +232,9 @@ func c07RunActiveSingle(t *testing.T, rec *vlib.Rec, idx int, ev c07Ev) {
 	case ev == c07EvClose:
 		o.closeByUs()
 	case ev == c07EvSilHoldAt:
-		time.Sleep(c07OSHoldSec * time.Second)
-		t1 += c07OSHoldSec * c07Sec
+		// the OpenSent hold timer of the outbound connection runs from the instant its OPEN was sent
+		time.Sleep(time.Duration(at + c07OSHoldSec*c07Sec - t1))
+		t1 = at + c07OSHoldSec*c07Sec
 	default:
 		consumed = o.write(a.msgBytes(ev))
 	}
